@@ -1,5 +1,6 @@
 //! Correspondence harness: runs the real tarpc code on scripted operation sequences and prints
 //! canonical observations as Coq terms (one case per line) for the model to be compared with.
+mod c07;
 mod c13;
 mod c16;
 mod c17;
@@ -70,6 +71,11 @@ fn main() {
             for _ in 0..count {
                 writeln!(w, "{}", cli::show(&cli::gen(&mut rng, bias))).unwrap();
             }
+        }
+        ("cli", "sweep") => {
+            let len: usize = arg(&args, "--len").and_then(|s| s.parse().ok()).unwrap_or(4);
+            let mut w = open_out(&out);
+            cli::sweep(len, |s| writeln!(w, "{}", cli::show(&s)).unwrap());
         }
         ("cliw", "gen") => {
             let mut rng = Rng::new(seed);
